@@ -1064,6 +1064,18 @@ impl LiveActor {
         started
     }
     pub fn verif_gossip_max_message_size(&self) -> usize { self.gossip.max_message_size() }
+    /// the real inbox dispatch for one message (anything but `Shutdown`); returns true if it dialled a peer
+    pub async fn verif_actor_message(&mut self, msg: ToLiveActor) -> bool {
+        if matches!(msg, ToLiveActor::Shutdown { .. }) {
+            return false;
+        }
+        let before = self.running_sync_connect.len();
+        let _ = self.on_actor_message(msg).await;
+        let started = self.running_sync_connect.len() > before;
+        self.running_sync_connect.abort_all();
+        self.running_sync_connect.detach_all();
+        started
+    }
     pub fn verif_is_syncing(&self, namespace: &NamespaceId) -> bool { self.state.is_syncing(namespace) }
     pub fn verif_sync_handle(&self) -> SyncHandle { self.sync.clone() }
     pub async fn verif_accept_finished(&mut self, res: Result<SyncFinished, AcceptError>) -> bool {
